@@ -3,15 +3,37 @@ synthesised from a PSD model has exactly the requested RMS.
 
 correspondence:
   (a) model (Lean driver `Drivers/C13.lean`, the definitions of `Model/C13.lean` executed on Float) vs
-      `prysm.interferogram.psd` / `bandlimited_rms` / the RMS rescale of `render_synthetic_surface`,
-      on the same inputs, compared at 1e-9 relative;
-  (b) the property's own predicates on the REAL outputs: Parseval sum, spectral peak of an on-grid
-      cosine on the RETURNED axes, band additivity / inclusion-exclusion / monotonicity / full-band
-      bound, period-vs-frequency band edges, Interferogram methods vs free functions, requested RMS;
-      every band-limited-RMS call runs under BOTH NumPy configurations (installed NumPy 2.x, and a
-      NumPy-1.x namespace proxy swapped into prysm's public backend shim).
+      `prysm.interferogram.psd` / `bandlimited_rms` (2-D and 1-D forms) / the RMS rescale of
+      `render_synthetic_surface`, on the same inputs, compared at 1e-9 relative; the model is handed the window
+      prysm ACTUALLY used (recorded inside the call), so the comparison is about the PSD, not about window values;
+  (b) the property's own predicates on the REAL outputs: Parseval sum with the window that was used, spectral peak
+      of an on-grid cosine on the RETURNED axes, band additivity / inclusion-exclusion / monotonicity / full-band
+      bound / the band value written out independently, band edges as periods, as frequencies, one of each, none
+      (ValueError), window names in any capitalisation, Interferogram methods (incl. aperture -> fill(0) on >= 26
+      samples: the automatic Welch branch through the public API), total integrated scatter for scalar and array
+      angles, requested RMS; every band-limited-RMS call runs under BOTH NumPy configurations (installed NumPy
+      2.x, and a NumPy-1.x namespace proxy); psd() / bandlimited_rms() / render must leave the caller's arrays alone.
 Every case is a small JSON-able dict from which the input is regenerated deterministically, so a failing
 case is its own replay.
+
+Scope decisions (review round):
+  * WINDOW VALUES are not C13 facts: Parseval, the axes and the band clauses hold for every window.  What the
+    quantifier ("window choices: named, automatic, user array") requires: a user array is used as it is; the names
+    'hann' (alias 'hanning') and 'welch' are recognised whatever their capitalisation; where a usable window is due
+    (>= 3 samples per axis) make_window returns an (m, n) finite real array with sum w^2 > 0.  The harness's window
+    oracle (np.hanning outer product, alpha = 4, the 2 % corner rule) is INFORMATIONAL (evidence histogram
+    `window_oracle:*`), never a disagreement.
+  * NaN heights: the quantifier says "real height maps"; a NaN in the map makes every PSD sample NaN (the FFT spreads
+    it) and the property says nothing.  The state of measured data (aperture -> NaN outside) is exercised through the
+    documented preparation mask() -> fill(0) -> psd() / bandlimited_rms() / total_integrated_scatter().
+  * BAND ARGUMENTS of bandlimited_rms: each edge may be given as a period or as a frequency — lower edge = 1/wlhigh
+    or flow (default 0), upper edge = 1/wllow or fhigh (default r.max()); an edge that is given is honoured whatever
+    form the other edge has (fixed in a1d9237: the period branch used to reset the frequency edge); the same edge
+    given both ways is unspecified (the code takes the period; not asserted); no edge at all -> ValueError.
+  * 1-D form (r, psd one-dimensional): one trapezoid integration with the step |r[c] - r[c-1]|, c = n//2; same band
+    mask, same argument handling; 1-sample axis -> 0.
+  * a map with a single row or column: the nested trapezoid integral is 0 (what the code returns); the full-band
+    bound then holds with equality (every sample is an outermost one): theorem full_band_total_measured_all.
 """
 import contextlib
 import itertools
@@ -23,25 +45,36 @@ from harness import common as C
 RULE = ('psd: every shape (m,n) with 1<=m,n<=S (S=8 quick, 12 thorough; all parity pairs, non-square), real '
         'normal height maps regenerated from a per-case seed, dx log-uniform in [1e-3,1e3], windows None (inputs '
         'crafted for both automatic branches: generic data / zero corners on >=26-sample axes / all-zero small '
-        'maps), "hann", "welch" (m>=3), user arrays (ones, random positive); peak: on-grid cosine of every '
-        'admissible integer frequency pair; bands: edges drawn strictly between distinct sample radii, plus an '
-        'edge exactly on a sample radius, as frequencies and as periods, under both NumPy configurations; synth: '
-        'abc_psd / ab_psd parameters x sizes 3..40 x masks (none, random boolean, disc); history: on ONE Interferogram, '
+        'maps), the names hann/hanning/welch in 7+4 capitalisations in rotation (positional and keyword), user arrays '
+        '(ones, random positive); variants (real code): every spelling of every name, welch with alpha in {1,2,2.5,6,8} '
+        'handed over as an array, signed and float32 user windows, float32 / int64 / int32 maps, float32 / int dx; peak: '
+        'on-grid cosine of every admissible integer frequency pair; bands: edges drawn strictly between distinct sample '
+        'radii, plus an edge exactly on a sample radius, as frequencies, as periods, one edge of each kind, positionally, '
+        'and no edge at all, float32 r/psd, under both NumPy configurations; 1-D r/psd of 1..14 (40) samples on |f|, signed '
+        'and one-sided axes; methods: dense maps 3..20 and apertured maps (mask -> fill(0)) of 26..48 samples, float32/int32 '
+        'data, band as frequencies / periods / one of each / none, TIS for scalar, 0-d, 1-D, 2-D and default angles; synth: '
+        'abc_psd / ab_psd / a user psd_fcn x sizes 3..40 x masks (none, disc, random boolean, 0-1 int, 0.-1. float, single '
+        'valid sample, all ones) x rms (log-uniform, integer, 0), keyword and positional; history: on ONE Interferogram, '
         'psd / bandlimited_rms / total_integrated_scatter interleaved with in-place mutators (remove_piston/tiptilt/power, '
         'fill, mask, spike_clip, data *= k, data[0,0] += c) and rebinding ones (crop, pad, filter, data = ..., latcal, '
         'strip_latcal): all query-mutator-query triples (thorough: two mutators) + random interleavings to length 14, each '
         'query compared with the same call on a fresh object built from a copy of the current data. A case is non-trivial '
-        'unless the map is 1x1 or all zero; distinct = distinct case dicts')
+        'unless the map is 1x1, all zero, or no usable window is due; distinct = distinct case dicts')
 ASSUMPTIONS = [
     'scipy.fft.fft2 computes the DFT sum; fftshift/ifftshift/fftfreq are the index maps of Model.C13 (the maps '
     'are compared exhaustively as integers against scipy on every run)',
     'np.trapezoid / np.trapz(y, dx=d, axis=0) = sum d*(y[1:]+y[:-1])/2 (modelled; compared on every case)',
     'the NumPy 1.x half of the configuration quantifier is exercised through a namespace proxy (has trapz, no '
-    'trapezoid, forwards everything else) swapped into prysm.mathops.np._srcmodule; a real NumPy 1.x is not installed',
+    'trapezoid, forwards everything else) swapped into prysm.mathops.np._srcmodule (or, if the shim has no such slot, '
+    'into the module global prysm.interferogram.np); a real NumPy 1.x is not installed',
     'float comparison tolerance 1e-9 relative to the largest magnitude of the compared array (inputs are O(1) '
-    'normal data on <=40x40 grids: DFT rounding ~1e-14); RMS of a rescaled surface at 1e-12 relative',
+    'normal data on <=48x48 grids: DFT rounding ~1e-14), 1e3 eps of the narrowest floating type involved when a float32 '
+    'map / window / dx / r / psd is handed over (1.2e-4); RMS of a rescaled surface at max(1e-12, 64 eps) relative',
     'np.random.rand (through the backend shim) supplies the random phases of synthesize_surface_from_psd; the RMS '
-    'claim is exact for every draw, the statistical claim (the surface HAS the requested PSD) is not covered',
+    'claim is exact for every draw, the statistical claim (the surface HAS the requested PSD) is not covered; the model '
+    'comparison of the rescale uses the unscaled surface recorded inside the same call, not a second draw',
+    'window VALUES (Hann / Welch formulas, alpha, the 2 % corner heuristic of the automatic choice) are outside the property: '
+    'the predicates use the window make_window returned inside the call; an independent oracle is informational only',
 ]
 TOL = 1e-9
 CONFIGS = ('numpy2', 'numpy1')
@@ -95,11 +128,16 @@ class _Namespace:
 
 @contextlib.contextmanager
 def _config(kind):
-    """run prysm with the NumPy 2.x namespace (trapezoid, no trapz) or the NumPy 1.x one (trapz, no trapezoid)"""
-    _, mathops = _impl()
-    shim = mathops.np
-    old = shim._srcmodule
-    real = old
+    """run prysm with the NumPy 2.x namespace (trapezoid, no trapz) or the NumPy 1.x one (trapz, no trapezoid).
+    The namespace is swapped into the backend shim (`prysm.mathops.np._srcmodule`) when the shim has that slot;
+    otherwise (a refactored shim) the module global `prysm.interferogram.np` is replaced by the proxy — which is
+    all that bandlimited_rms looks at — so that a refactor of the shim is not a tool failure."""
+    itf, mathops = _impl()
+    shim = getattr(mathops, 'np', None)
+    if shim is not None and hasattr(shim, '_srcmodule'):
+        holder, slot, real = shim, '_srcmodule', shim._srcmodule
+    else:
+        holder, slot, real = itf, 'np', itf.np
     if kind == 'numpy1':
         new = _Namespace(real, hide=('trapezoid',), extra={'trapz': _np1_trapz})
     elif kind == 'numpy2':
@@ -109,17 +147,30 @@ def _config(kind):
             new = _Namespace(real, hide=('trapz',), extra={'trapezoid': getattr(real, 'trapezoid', _np1_trapz)})
     else:
         raise ValueError(kind)
-    shim._srcmodule = new
+    setattr(holder, slot, new)
     try:
         yield
     finally:
-        shim._srcmodule = old
+        setattr(holder, slot, real)
 
 
 # ------------------------------------------------------------------------------------------------
 # deterministic inputs from a case dict
 # ------------------------------------------------------------------------------------------------
+DTYPES = {'float64': np.float64, 'float32': np.float32, 'int64': np.int64, 'int32': np.int32}
+
+
 def _height(case):
+    h = _height64(case)
+    dt = case.get('dtype', 'float64')
+    if dt == 'float64':
+        return h
+    if dt.startswith('int'):
+        return np.rint(h * 100).astype(DTYPES[dt])      # an integer height map (e.g. raw counts)
+    return h.astype(DTYPES[dt])
+
+
+def _height64(case):
     m, n = case['shape']
     rng = np.random.default_rng(case['seed'])
     data = case.get('data', 'normal')
@@ -170,7 +221,7 @@ def _welch(m, n, dx, alpha=4):
 def _auto_is_welch(sig):
     """the corner test of make_window(which=None), written with explicit index sets: k = round-half-even(2% of the
     axis); the `first k` block is rows [0,k), the `last k` block is written `-k:` in the source, which for k = 0 is
-    the WHOLE axis; Welch iff the four corner blocks are all zero"""
+    the WHOLE axis; Welch iff the four corner blocks are all zero.  INFORMATIONAL oracle only (see `_oracle_window`)."""
     m, n = sig.shape
     ky, kx = int(round(m * 0.02, 0)), int(round(n * 0.02, 0))
     top, left = range(0, ky), range(0, kx)
@@ -185,24 +236,118 @@ def _auto_is_welch(sig):
     return True
 
 
-def _window(case, h):
-    """-> (argument handed to prysm, window array the oracle expects)"""
-    m, n = case['shape']
-    dx = case['dx']
-    w = case['window']
+def _dx(case):
+    """the sample spacing as the type the case asks for (float, numpy float32, Python int)"""
+    t = case.get('dxtype', 'float')
+    if t == 'float32':
+        return np.float32(case['dx'])
+    if t == 'int':
+        return int(case['dx'])
+    return case['dx']
+
+
+HANN_NAMES = ('hann', 'Hann', 'HANN', 'hanning', 'Hanning', 'HANNING', 'hAnN')
+WELCH_NAMES = ('welch', 'Welch', 'WELCH', 'wELch')
+ARRAY_WINDOWS = ('ones', 'user', 'user32', 'welch_alpha', 'signed')
+
+
+def _window_family(w):
+    """'auto' | 'hann' | 'welch' | 'array' for the window spec of a case"""
     if w is None:
-        return None, (_welch(m, n, dx) if _auto_is_welch(h) else _hann(m, n))
-    if w in ('hann', 'Hanning'):
-        return w, _hann(m, n)
-    if w in ('welch', 'Welch'):
-        return w, _welch(m, n, dx)
-    if w == 'ones':
-        a = np.ones((m, n))
-        return a, a
-    if w == 'user':
-        a = np.random.default_rng(case['seed'] + 7919).random((m, n)) + 0.1
-        return a, a
+        return 'auto'
+    if w in ARRAY_WINDOWS:
+        return 'array'
+    if w.lower() in ('hann', 'hanning'):
+        return 'hann'
+    if w.lower() == 'welch':
+        return 'welch'
     raise ValueError(w)
+
+
+def _window_arg(case, h):
+    """the `window=` argument handed to prysm for this case: None (automatic), a NAME (any capitalisation, incl. the
+    alias 'hanning') or a user ARRAY"""
+    itf, _ = _impl()
+    m, n = case['shape']
+    w = case['window']
+    if w is None or _window_family(w) in ('hann', 'welch'):
+        return w
+    if w == 'ones':
+        return np.ones((m, n))
+    if w == 'user':
+        return np.random.default_rng(case['seed'] + 7919).random((m, n)) + 0.1
+    if w == 'user32':
+        return (np.random.default_rng(case['seed'] + 7919).random((m, n)) + 0.1).astype(np.float32)
+    if w == 'signed':      # a user array need not be positive (the Welch window itself is negative in the corners)
+        return np.random.default_rng(case['seed'] + 7919).standard_normal((m, n))
+    if w == 'welch_alpha':   # the only way to hand `alpha` to the PSD: make the window first, pass it as an array
+        return np.asarray(itf.make_window(h, _dx(case), 'welch', alpha=case['alpha']))
+    raise ValueError(w)
+
+
+def _oracle_window(case, h):
+    """INFORMATIONAL: the window an independent reading of make_window's present rules gives (np.hanning symmetric
+    form, alpha = 4, the 2 % corner rule).  Parseval, the axes and the band clauses hold for ANY window, so a
+    difference between this oracle and make_window is recorded in the evidence histogram and is NOT a violation."""
+    m, n = case['shape']
+    fam = _window_family(case['window'])
+    if fam == 'auto':
+        return _welch(m, n, _dx(case)) if _auto_is_welch(h) else _hann(m, n)
+    if fam == 'hann':
+        return _hann(m, n)
+    if fam == 'welch':
+        return _welch(m, n, _dx(case))
+    return None
+
+
+def _expect_valid_window(case):
+    """MUST make_window give a usable window (finite, sum w^2 > 0) for this case?  Stated from the SHAPE alone, never from
+    window values: a taper on an axis of 1 or 2 samples may legitimately vanish (symmetric Hann of 2 samples is [0, 0], a
+    periodic Hann of 1 sample is [0]) and the Welch window divides by rmax = (m-1-m//2) dx, 0 for m < 3 — there the property
+    (which needs sum w^2 != 0) is applied only if the window that comes back is usable.  With >= 3 samples per axis every
+    named / automatic window must be usable; a user array always is."""
+    m, n = case['shape']
+    fam = _window_family(case['window'])
+    taper_ok = min(m, n) >= 3
+    return {'auto': taper_ok, 'hann': taper_ok, 'welch': taper_ok, 'array': True}[fam]
+
+
+def _valid_window(w, shape):
+    w = np.asarray(w)
+    return w.shape == tuple(shape) and w.dtype.kind in 'fiu' and bool(np.isfinite(w).all()) and float((w.astype(float) ** 2).sum()) > 0
+
+
+@contextlib.contextmanager
+def _record_windows(store):
+    """record every array `make_window` returns while the block runs (psd() looks the function up in its module at call
+    time), so that the predicates use the window prysm ACTUALLY used, whatever its values are"""
+    itf, _ = _impl()
+    orig = itf.make_window
+
+    def recording(*a, **k):
+        out = orig(*a, **k)
+        try:
+            store.append(np.array(out, copy=True))
+        except Exception:
+            pass
+        return out
+    itf.make_window = recording
+    try:
+        yield
+    finally:
+        itf.make_window = orig
+
+
+def _rtol(*arrays):
+    """comparison tolerance for results computed in the precision of the given arrays: 1e-9 for float64 (DFT rounding
+    on <= 40x40 O(1) data is ~1e-14), 1e3 eps for anything narrower (float32: 1.2e-4 ... the PSD of float32 data
+    handed over with a float32 window is computed in single precision throughout)"""
+    eps = 0.0
+    for a in arrays:
+        dt = np.asarray(a).dtype
+        if dt.kind == 'f':
+            eps = max(eps, float(np.finfo(dt).eps))
+    return max(TOL, 1e3 * eps) if eps > 1e-12 else TOL
 
 
 def _axes_expected(m, n, dx):
@@ -236,33 +381,92 @@ def _radius_groups(r):
 # the property's predicates on the real code (shared by correspondence, search and replay)
 # ------------------------------------------------------------------------------------------------
 def _real_psd(case):
+    """-> (h, window ACTUALLY used by prysm, ux, uy, psd).  The window is the array make_window returned inside the
+    call (recorded); if psd() did not go through interferogram.make_window, make_window is called with the same
+    arguments.  Also checks that psd() left the caller's arrays alone (raises AssertionError('aliasing ...'))."""
     itf, _ = _impl()
     h = _height(case)
-    warg, wexp = _window(case, h)
-    ux, uy, p = itf.psd(h, case['dx'], window=warg)
-    return h, wexp, np.asarray(ux), np.asarray(uy), np.asarray(p)
+    warg = _window_arg(case, h)
+    h0 = h.copy()
+    w0 = warg.copy() if isinstance(warg, np.ndarray) else None
+    rec = []
+    with _record_windows(rec):
+        if 'window_kw' in case and not case['window_kw']:
+            ux, uy, p = itf.psd(h, _dx(case), warg) if warg is not None else itf.psd(h, _dx(case))
+        else:
+            ux, uy, p = itf.psd(height=h, dx=_dx(case), window=warg)
+    if not np.array_equal(h, h0) or (w0 is not None and not np.array_equal(warg, w0)):
+        raise AssertionError('aliasing: psd() modified the height map / the window array of its caller in place')
+    w = rec[-1] if rec else np.asarray(itf.make_window(h, _dx(case), warg))
+    return h, np.asarray(w), np.asarray(ux), np.asarray(uy), np.asarray(p)
+
+
+def pred_window(case):
+    """the window clauses of the quantifier ("named, automatic, user array"): a user array is used as it is; a NAME is
+    recognised whatever its capitalisation, 'hanning' being an alias of 'hann'; whatever make_window returns where the
+    property applies is an (m, n) real array, finite, with sum w^2 > 0.  Which VALUES a named / automatic window has is
+    not a C13 fact."""
+    itf, _ = _impl()
+    m, n = case['shape']
+    h = _height(case)
+    out = []
+    try:
+        warg = _window_arg(case, h)
+        w = np.asarray(itf.make_window(h, _dx(case), warg))
+    except Exception as ex:
+        return [('window', f'make_window(signal {m}x{n}, which={case["window"]!r}) raised {type(ex).__name__}: {ex}')]
+    fam = _window_family(case['window'])
+    if _expect_valid_window(case) and not _valid_window(w, (m, n)):
+        out.append(('window', f'make_window(which={case["window"]!r}) on a {m}x{n} map returned shape {w.shape} dtype {w.dtype}, '
+                              f'finite: {bool(np.isfinite(w).all()) if w.dtype.kind in "fiu" else None}, sum w^2 = '
+                              f'{float((w.astype(float) ** 2).sum()) if w.dtype.kind in "fiu" else None}'))
+    if fam == 'array' and not (w.shape == warg.shape and np.array_equal(w, warg)):
+        out.append(('window', 'a user window array is not used as it is'))
+    if fam in ('hann', 'welch'):
+        canon = fam
+        try:
+            wc = np.asarray(itf.make_window(h, _dx(case), canon))
+            if not (wc.shape == w.shape and np.array_equal(wc, w, equal_nan=True)):
+                out.append(('window_names', f'window name {case["window"]!r} gives a different window than {canon!r}'))
+        except Exception as ex:
+            out.append(('window_names', f'make_window(which={canon!r}) raised {type(ex).__name__}: {ex}'))
+    return out
 
 
 def pred_psd(case):
     """Parseval + axes + (for a cosine) peak location.  returns list of (item, detail)"""
     m, n = case['shape']
-    dx = case['dx']
+    dx = float(_dx(case))
     out = []
     try:
         h, w, ux, uy, p = _real_psd(case)
+    except AssertionError as ex:
+        return [('psd_pure', str(ex))]
     except Exception as ex:
-        return [('psd', f'psd raised {type(ex).__name__}: {ex}')]
+        return [('psd', f'psd(height {m}x{n} {case.get("dtype", "float64")}, dx, window={case["window"]!r}) raised '
+                        f'{type(ex).__name__}: {ex}')]
+    out += pred_window(case)
     if p.shape != (m, n) or ux.shape != (m, n) or uy.shape != (m, n):
-        return [('psd_axes', f'shapes psd {p.shape} ux {ux.shape} uy {uy.shape} for a {m}x{n} map')]
-    ex_, ey_ = _axes_expected(m, n, dx)
-    if not (_close(ux, ex_, 1e-12) and _close(uy, ey_, 1e-12)):
+        return out + [('psd_axes', f'shapes psd {p.shape} ux {ux.shape} uy {uy.shape} for a {m}x{n} map')]
+    if p.dtype.kind != 'f' or ux.dtype.kind != 'f' or uy.dtype.kind != 'f':
+        return out + [('psd', f'psd / axes are not real floating arrays: {p.dtype} {ux.dtype} {uy.dtype}')]
+    ex_, ey_ = _axes_expected(m, n, float(dx))
+    atol = max(1e-12, 8 * float(np.finfo(ux.dtype).eps), 8 * float(np.finfo(np.asarray(_dx(case)).dtype).eps) if case.get('dxtype') == 'float32' else 0)
+    if not (_close(ux, ex_, atol) and _close(uy, ey_, atol)):
         out.append(('psd_axes', 'returned axes are not (i - n//2)/(n dx) along x (columns) and y (rows)'))
-    s2 = (w ** 2).sum()
-    if np.isfinite(s2) and s2 > 0:
-        lhs = p.sum() / (n * dx) / (m * dx)
-        rhs = ((h * w) ** 2).sum() / s2
-        if not (np.isfinite(lhs) and abs(lhs - rhs) <= TOL * max(abs(rhs), 1e-300)):
-            out.append(('parseval', f'sum(psd)*dfx*dfy = {lhs!r}, window-weighted mean square = {rhs!r}'))
+    if _valid_window(w, (m, n)):
+        tol = _rtol(p, w, _dx(case))      # S2 = sum(w^2) is accumulated in the window's precision, fs = 1/dx in that of dx
+        wf, hf = w.astype(float), h.astype(float)
+        s2 = (wf ** 2).sum()
+        lhs = float(p.astype(float).sum()) / (n * float(dx)) / (m * float(dx))
+        rhs = ((hf * wf) ** 2).sum() / s2
+        if not (np.isfinite(lhs) and abs(lhs - rhs) <= tol * max(abs(rhs), 1e-300)):
+            out.append(('parseval', f'sum(psd)*dfx*dfy = {lhs!r}, mean square of the data weighted by the window that was '
+                                    f'used = {rhs!r}'))
+        if not (p >= 0).all():
+            out.append(('parseval', 'the PSD has negative samples'))
+    elif _expect_valid_window(case):
+        pass          # reported by pred_window above
     if case.get('data') == 'cosine':
         ky, kx = case['freq']
         fy, fx = ky / (m * dx), kx / (n * dx)
@@ -279,17 +483,22 @@ def pred_psd(case):
     return out
 
 
-def _brms(itf, config, r, p, **kw):
+def _brms(itf, config, r, p, *args, **kw):
     with _config(config):
-        v = itf.bandlimited_rms(r, p, **kw)
+        v = itf.bandlimited_rms(r, p, *args, **kw)
+    if np.ndim(v) != 0:
+        raise TypeError(f'bandlimited_rms returned an array of shape {np.shape(v)}')
     return float(v) ** 2
 
 
 def _band_setup(case):
     """real PSD of the case + its radial frequency grid + band edges derived from the case"""
     h, w, ux, uy, p = _real_psd(case)
-    r = np.hypot(ux, uy)
-    groups = _radius_groups(r)
+    r = np.hypot(ux, uy) if ux.shape == uy.shape else np.zeros((0, 0))
+    if case.get('rptype', 'float64') != 'float64':      # r and the PSD handed over in a narrower type
+        r = r.astype(DTYPES[case['rptype']])
+        p = p.astype(DTYPES[case['rptype']])
+    groups = _radius_groups(r.astype(float))
     # cut points strictly between distinct radii (only gaps that are wide in floating point)
     cuts = [0.5 * (a[1] + b[0]) for a, b in zip(groups[:-1], groups[1:]) if b[0] - a[1] > 1e-6 * b[0]]
     return h, w, ux, uy, p, r, groups, cuts
@@ -322,19 +531,43 @@ def _weights(k):
     return u
 
 
+def _band_sum(r, p, lo, hi, dfy, dfx):
+    """the band-limited mean square written out: closed band [lo, hi], trapezoid weights (1/2 on the outermost rows and
+    columns), per-axis steps — independent of prysm.bandlimited_rms"""
+    m, n = p.shape
+    keep = (r >= lo) & (r <= hi)
+    return float(dfx * dfy * (np.outer(_weights(m), _weights(n)) * np.where(keep, p.astype(float), 0.0)).sum())
+
+
 def pred_band(case):
     """band-limited RMS predicates on the real code under case['config'].  returns list of (item, detail)"""
     itf, _ = _impl()
     m, n = case['shape']
-    dx = case['dx']
+    dx = float(_dx(case))
     cfg = case['config']
     out = []
     try:
         h, w, ux, uy, p, r, groups, cuts = _band_setup(case)
     except Exception as ex:
         return [('psd', f'psd raised {type(ex).__name__}: {ex}')]
+    if p.shape != (m, n) or r.shape != (m, n):
+        return [('psd_axes', f'shapes psd {p.shape}, hypot(ux, uy) {r.shape} for a {m}x{n} map')]
+    if not _valid_window(w, (m, n)):
+        # no usable window (sum w^2 = 0 / NaN): the PSD is 0/0 and the property does not apply — unless a usable window was due
+        return [] if not _expect_valid_window(case) else [('window', f'no usable window for a {m}x{n} map, window={case["window"]!r}')]
     a, b, c, on = _pick_edges(case, groups, cuts)
     rmax = float(r.max())
+    r0, p0 = r.copy(), p.copy()
+    # ---- a call that names no band at all must be refused (ValueError), not answered with some default band
+    try:
+        with _config(cfg):
+            v = itf.bandlimited_rms(r, p)
+        out.append(('band_empty', f'bandlimited_rms(r, psd) without any band edge returned {np.asarray(v).tolist()!r} instead of '
+                                  f'raising ValueError'))
+    except ValueError:
+        pass
+    except Exception as ex:
+        out.append(('band_empty', f'bandlimited_rms(r, psd) without any band edge raised {type(ex).__name__} ({ex}), not ValueError'))
     try:
         full = _brms(itf, cfg, r, p, flow=0, fhigh=rmax)
         full_default = _brms(itf, cfg, r, p, flow=0)
@@ -342,13 +575,17 @@ def pred_band(case):
         ab = _brms(itf, cfg, r, p, flow=a, fhigh=b)
         bc = _brms(itf, cfg, r, p, flow=b, fhigh=c)
         wide = _brms(itf, cfg, r, p, flow=a * 0.5, fhigh=c * 1.5)
-        per = None
+        pos = _brms(itf, cfg, r, p, None, None, a, c)          # positional order (wllow, wlhigh, flow, fhigh)
+        per = mix_lo = None
         if a > 0:
             per = _brms(itf, cfg, r, p, wllow=1 / c, wlhigh=1 / a)
+            mix_lo = _brms(itf, cfg, r, p, wlhigh=1 / a, fhigh=c)     # lower edge as a period, upper as a frequency
+        mix_hi = _brms(itf, cfg, r, p, wllow=1 / c, flow=a)      # upper edge as a period, lower as a frequency
         per_lo = _brms(itf, cfg, r, p, wllow=1 / c)      # flow defaults to 0
         lo_c = _brms(itf, cfg, r, p, flow=0, fhigh=c)
         per_hi = _brms(itf, cfg, r, p, wlhigh=1 / b)     # fhigh defaults to r.max()
         b_up = _brms(itf, cfg, r, p, flow=b)
+        up_c = _brms(itf, cfg, r, p, fhigh=c)            # flow defaults to 0
         if on is not None:
             a2 = 0.0
             c2 = 2 * rmax + 1
@@ -357,14 +594,17 @@ def pred_band(case):
             on_bc = _brms(itf, cfg, r, p, flow=on, fhigh=c2)
             on_bb = _brms(itf, cfg, r, p, flow=on, fhigh=on)
     except Exception as ex:
-        return [('brms_raises', f'bandlimited_rms raised {type(ex).__name__}: {ex} under configuration {cfg}')]
-    vals = [full, full_default, ac, ab, bc, wide, per_lo, lo_c, per_hi, b_up]
+        return out + [('brms_raises', f'bandlimited_rms raised {type(ex).__name__}: {ex} under configuration {cfg}')]
+    if not (np.array_equal(r, r0) and np.array_equal(p, p0)):
+        out.append(('brms_pure', 'bandlimited_rms modified the r / psd arrays of its caller in place'))
+        r, p = r0, p0
+    vals = [full, full_default, ac, ab, bc, wide, pos, mix_hi, per_lo, lo_c, per_hi, b_up, up_c]
     if not all(np.isfinite(v) for v in vals):
-        return [('brms', f'non-finite band-limited RMS: {vals}')]
+        return out + [('brms', f'non-finite band-limited RMS: {vals}')]
     dfy, dfx = 1 / (m * dx), 1 / (n * dx)
-    total = p.sum() * dfx * dfy
+    total = float(p.astype(float).sum()) * dfx * dfy
     scale = max(total, 1e-300)
-    tol = TOL * scale
+    tol = _rtol(r, p) * scale
     if abs(ac - (ab + bc)) > tol:
         out.append(('band_additive', f'brms^2[{a:.6g},{c:.6g}] = {ac!r} but brms^2[a,b] + brms^2[b,c] = {ab + bc!r} '
                                      f'(b = {b:.6g} lies strictly between sample radii)'))
@@ -373,74 +613,229 @@ def pred_band(case):
                                      f'[a,c] {ac!r} wider {wide!r} full {full!r}'))
     if abs(full - full_default) > tol:
         out.append(('band_defaults', f'fhigh=r.max() gives {full!r}, default fhigh gives {full_default!r}'))
+    if abs(up_c - lo_c) > tol:
+        out.append(('band_defaults', f'fhigh alone gives {up_c!r}, flow=0 with the same fhigh gives {lo_c!r}'))
+    if abs(pos - ac) > tol:
+        out.append(('band_periods', f'bandlimited_rms(r, psd, None, None, a, c) = {pos!r}, with flow=a, fhigh=c it is {ac!r}'))
     if per is not None and abs(per - ac) > tol:
         out.append(('band_periods', f'band given as periods {per!r} differs from the same band given as frequencies {ac!r}'))
     if abs(per_lo - lo_c) > tol or abs(per_hi - b_up) > tol:
         out.append(('band_periods', f'one-sided period bands: wllow only {per_lo!r} vs flow=0,fhigh {lo_c!r}; '
                                     f'wlhigh only {per_hi!r} vs flow only {b_up!r}'))
+    # every edge that is given is honoured, whether it is given as a period or as a frequency (one of each included)
+    if abs(mix_hi - ac) > tol:
+        out.append(('band_mixed', f'bandlimited_rms(wllow=1/c, flow=a)^2 = {mix_hi!r} but the band [a, c] = [{a:.6g}, {c:.6g}] '
+                                  f'given as two frequencies has {ac!r} (and [0, c] has {lo_c!r}, [a, max] {_band_sum(r, p, a, rmax, dfy, dfx)!r})'))
+    if mix_lo is not None and abs(mix_lo - ac) > tol:
+        out.append(('band_mixed', f'bandlimited_rms(wlhigh=1/a, fhigh=c)^2 = {mix_lo!r} but the band [a, c] = [{a:.6g}, {c:.6g}] '
+                                  f'given as two frequencies has {ac!r}'))
     if on is not None and abs(on_ac - (on_ab + on_bc - on_bb)) > tol:
         out.append(('band_incl_excl', f'edge b = {on!r} on a sample radius: brms^2[a,c] = {on_ac!r}, brms^2[a,b] + '
                                       f'brms^2[b,c] - brms^2[b,b] = {on_ab + on_bc - on_bb!r} (bands are closed at both ends)'))
+    # the band value itself, written out independently (closed band, trapezoid weights, per-axis steps)
+    want = _band_sum(r, p, a, c, dfy, dfx)
+    if abs(ac - want) > tol:
+        out.append(('band_value', f'brms^2[{a:.6g},{c:.6g}] = {ac!r}; the trapezoid sum of the PSD samples with a <= r <= c and the '
+                                  f'per-axis steps is {want!r}'))
     # full band: the stated bound, then its sharp form (trapezoid weights 1/2 on the outermost rows/columns)
     outer = np.zeros((m, n), dtype=bool)
     outer[0, :] = outer[-1, :] = True
     outer[:, 0] = outer[:, -1] = True
-    bound = dfx * dfy * p[outer].sum()
-    s2 = (w ** 2).sum()
-    msq = ((h * w) ** 2).sum() / s2 if s2 > 0 else total
+    bound = dfx * dfy * float(p.astype(float)[outer].sum())
+    if _valid_window(w, (m, n)):
+        wf, hf = w.astype(float), h.astype(float)
+        msq = ((hf * wf) ** 2).sum() / (wf ** 2).sum()
+    else:
+        msq = total
     if not (abs(msq - full) <= bound + tol):
-        out.append(('full_band', f'full-band brms^2 = {full!r}, window-weighted mean square = {msq!r}, weight of the '
+        out.append(('full_band', f'full-band brms^2 = {full!r}, mean square weighted by the window that was used = {msq!r}, weight of the '
                                  f'outermost frequency samples = {bound!r}'))
-    sharp = dfx * dfy * (np.outer(_weights(m), _weights(n)) * p).sum()
+    sharp = _band_sum(r, p, 0.0, rmax, dfy, dfx)
     if abs(full - sharp) > tol:
         out.append(('full_band', f'full-band brms^2 = {full!r} but the trapezoid sum with the per-axis steps '
                                  f'1/(m dx), 1/(n dx) is {sharp!r} (ratio {full / sharp if sharp else float("nan"):.6g})'))
     return out
 
 
+def _band1d_setup(case):
+    """a 1-D radial frequency axis and a 1-D PSD on it (the `r.ndim != 2` branch of bandlimited_rms): the axis is
+    |fftshift(fftfreq(n, dx))| ('abs'), the signed axis ('signed') or an ascending one-sided axis k/(n dx) ('onesided')"""
+    n = case['n']
+    dx = float(case['dx'])
+    rng = np.random.default_rng(case['seed'])
+    f = (np.arange(n) - n // 2) / (n * dx)
+    kind = case.get('axis', 'abs')
+    r = {'abs': np.abs(f), 'signed': f, 'onesided': np.arange(n) / (n * dx)}[kind]
+    p = rng.random(n) + 0.05
+    dt = case.get('rptype', 'float64')
+    return r.astype(DTYPES[dt]), p.astype(DTYPES[dt]), 1 / (n * dx)
+
+
+def _band1d_sum(r, p, lo, hi, step):
+    keep = (r >= lo) & (r <= hi)
+    return float(step * (_weights(len(p)) * np.where(keep, p.astype(float), 0.0)).sum())
+
+
+def pred_band1d(case):
+    """the 1-D form of bandlimited_rms (r and psd one-dimensional): a single trapezoid integration whose step is the
+    spacing |r[c] - r[c-1]| of the axis at its centre sample c = n//2"""
+    itf, _ = _impl()
+    cfg = case['config']
+    n = case['n']
+    r, p, step = _band1d_setup(case)
+    r0, p0 = r.copy(), p.copy()
+    rf = r.astype(float)
+    lo_all, hi_all = float(rf.min()) - 1.0, float(rf.max()) + 1.0
+    u = np.unique(np.abs(rf))
+    rng = np.random.default_rng(case['seed'] + 1)
+    if len(u) >= 3:
+        k = sorted(rng.choice(len(u) - 1, size=2, replace=False))
+        a, c = 0.5 * (u[k[0]] + u[k[0] + 1]), 0.5 * (u[k[1]] + u[k[1] + 1])
+    else:
+        a, c = 0.25 * step, 10 * step * n
+    b = 0.5 * (a + c)
+    if np.any(np.abs(np.abs(rf) - b) < 1e-9 * step):
+        b = b + 0.01 * step
+    out = []
+    try:
+        full = _brms(itf, cfg, r, p, flow=lo_all, fhigh=hi_all)
+        ac = _brms(itf, cfg, r, p, flow=a, fhigh=c)
+        ab = _brms(itf, cfg, r, p, flow=a, fhigh=b)
+        bc = _brms(itf, cfg, r, p, flow=b, fhigh=c)
+        per = _brms(itf, cfg, r, p, wllow=1 / c, wlhigh=1 / a)
+    except Exception as ex:
+        return [('brms_raises', f'bandlimited_rms on a 1-D axis of {n} samples raised {type(ex).__name__}: {ex} under configuration {cfg}')]
+    if not (np.array_equal(r, r0) and np.array_equal(p, p0)):
+        out.append(('brms_pure', 'bandlimited_rms modified the 1-D r / psd arrays of its caller in place'))
+    tot = step * float(p.astype(float).sum())
+    tol = _rtol(r, p) * max(tot, 1e-300)
+    for (name, got, lo, hi) in (('full', full, lo_all, hi_all), ('[a,c]', ac, a, c), ('[a,b]', ab, a, b), ('[b,c]', bc, b, c)):
+        want = _band1d_sum(r, p, lo, hi, step if n >= 2 else 0.0)
+        if not abs(got - want) <= tol:
+            out.append(('band_1d', f'1-D band-limited mean square over {name} = {got!r}; trapezoid sum with the step of the axis '
+                                   f'{step!r} is {want!r} (ratio {got / want if want else float("nan"):.6g}), axis of {n} samples'))
+            break
+    if abs(ac - (ab + bc)) > tol:
+        out.append(('band_additive', f'1-D: brms^2[a,c] = {ac!r}, brms^2[a,b] + brms^2[b,c] = {ab + bc!r}'))
+    if abs(per - ac) > tol:
+        out.append(('band_periods', f'1-D: band given as periods {per!r}, as frequencies {ac!r}'))
+    return out
+
+
+def _disc(m, n, frac=0.42):
+    yy, xx = np.mgrid[0:m, 0:n]
+    return np.hypot(xx - n // 2, yy - m // 2) <= frac * min(m, n)
+
+
+def _method_object(case):
+    """the Interferogram of a `methods` case.  'aperture': the normal state of measured data — a disc aperture is applied
+    with Interferogram.mask (samples outside become NaN) and the hole is then filled with Interferogram.fill(0), the
+    documented preparation for spectral analysis; on >= 26 samples per axis the automatic window then takes its Welch
+    branch, so that branch is reached through the public methods"""
+    itf, _ = _impl()
+    h = _height(case)
+    ifg = itf.Interferogram(h.copy(), dx=_dx(case))
+    if case.get('prep') == 'aperture':
+        m, n = case['shape']
+        ifg.mask(_disc(m, n))
+        if not np.isnan(ifg.data).any():
+            raise AssertionError('Interferogram.mask left no NaN outside the aperture')
+        ifg.fill(0)
+    return ifg
+
+
 def pred_methods(case):
-    """Interferogram.psd / bandlimited_rms / total_integrated_scatter against the free functions"""
+    """Interferogram.psd / bandlimited_rms / total_integrated_scatter: the property's clauses on what the METHODS
+    return (Parseval with the window that was used, axes, band value written out independently, the TIS formula for
+    scalar and array angles) and agreement with the free functions"""
     itf, _ = _impl()
     m, n = case['shape']
-    dx = case['dx']
+    dx = float(_dx(case))
     cfg = case['config']
-    h = _height(case)
     out = []
-    w0 = _window({**case, 'window': None}, h)[1]
-    if not (np.isfinite(w0).all() and (w0 ** 2).sum() > 0):
-        return []     # the automatic window has sum w^2 = 0 (Hann on a 2-sample axis): outside the property's scope
+    if not _expect_valid_window({**case, 'window': None}):
+        return []     # the automatic window may have sum w^2 = 0 (Hann on a 2-sample axis): outside the property's scope
     try:
-        ifg = itf.Interferogram(h.copy(), dx=dx)
-        P = ifg.psd()
-        ux, uy, p = itf.psd(h, dx)
+        ifg = _method_object(case)
+        data = np.array(ifg.data, copy=True)
+        rec = []
+        with _record_windows(rec):
+            P = ifg.psd()
+        ux, uy, p = itf.psd(data, _dx(case))
     except Exception as ex:
         return [('ifg_methods', f'Interferogram.psd raised {type(ex).__name__}: {ex}')]
+    if not np.array_equal(ifg.data, data, equal_nan=True):
+        out.append(('psd_pure', 'Interferogram.psd() modified the data of the object'))
+    ux, uy, p = np.asarray(ux), np.asarray(uy), np.asarray(p)
+    Pd = np.asarray(P.data)
+    if Pd.shape != (m, n) or p.shape != (m, n) or ux.shape != (m, n) or uy.shape != (m, n):
+        return out + [('psd_axes', f'shapes Interferogram.psd().data {Pd.shape}, psd {p.shape}, ux {ux.shape}, uy {uy.shape} for a {m}x{n} map')]
     r = np.hypot(ux, uy)
-    if not (_close(P.data, p, 1e-12) and _close(P.x, ux, 1e-12) and _close(P.y, uy, 1e-12) and _close(P.r, r, 1e-12)):
+    rt = max(1e-12, 8 * float(np.finfo(np.asarray(P.r).dtype).eps)) if np.asarray(P.r).dtype.kind == 'f' else 1e-12
+    if not (_close(Pd, p, 1e-12) and _close(P.x, ux, 1e-12) and _close(P.y, uy, 1e-12) and _close(P.r, r, rt)):
         out.append(('ifg_methods', 'Interferogram.psd() data / x / y / r differ from psd(self.data, self.dx) and its axes'))
     if not (np.ndim(P.dx) == 0 and abs(float(P.dx) - 1 / (n * dx)) <= 1e-12 / (n * dx)):
         out.append(('ifg_psd_dx', f'Interferogram.psd().dx = {np.asarray(P.dx).tolist()!r}, the x frequency step is {1 / (n * dx)!r}'))
+    # the property itself on what the method returned: axes and Parseval with the window that was used
+    ex_, ey_ = _axes_expected(m, n, dx)
+    if not (_close(P.x, ex_, 1e-12) and _close(P.y, ey_, 1e-12)):
+        out.append(('psd_axes', 'Interferogram.psd(): x / y are not (i - n//2)/(n dx) along columns / rows'))
+    w = rec[-1] if rec else np.asarray(itf.make_window(data, _dx(case), None))
+    if _valid_window(w, (m, n)):
+        lhs = float(Pd.sum()) / (n * dx) / (m * dx)
+        rhs = float(((data * w) ** 2).sum() / (w ** 2).sum())
+        if not (np.isfinite(lhs) and abs(lhs - rhs) <= TOL * max(abs(rhs), 1e-300)):
+            out.append(('parseval', f'Interferogram.psd(): sum(psd)*dfx*dfy = {lhs!r}, mean square of the data weighted by the '
+                                    f'window that was used = {rhs!r}'))
+    else:
+        out.append(('window', f'the automatic window on a {m}x{n} map is not a finite array of that shape with sum w^2 > 0'))
     groups = _radius_groups(r)
     cuts = [0.5 * (a[1] + b[0]) for a, b in zip(groups[:-1], groups[1:]) if b[0] - a[1] > 1e-6 * b[0]]
     a, b, c, _ = _pick_edges(case, groups, cuts)
+    dfy, dfx = 1 / (m * dx), 1 / (n * dx)
+    total = float(p.sum()) * dfx * dfy
+    tol = TOL * max(total, 1e-300)
+    want_ac = _band_sum(r, p, a, c, dfy, dfx)
+    want_0b = _band_sum(r, p, 0.0, b, dfy, dfx)
+    calls = [('flow=a, fhigh=c', {'flow': a, 'fhigh': c}), ('wllow=1/c, flow=a', {'wllow': 1 / c, 'flow': a})]
+    if a > 0:
+        calls += [('wllow=1/c, wlhigh=1/a', {'wllow': 1 / c, 'wlhigh': 1 / a}), ('wlhigh=1/a, fhigh=c', {'wlhigh': 1 / a, 'fhigh': c})]
     try:
         with _config(cfg):
-            v1 = float(ifg.bandlimited_rms(flow=a, fhigh=c))
-            v2 = float(itf.bandlimited_rms(r, p, flow=a, fhigh=c))
+            for (txt, kw) in calls:
+                v1 = float(ifg.bandlimited_rms(**kw)) ** 2
+                v2 = float(itf.bandlimited_rms(r, p, **kw)) ** 2
+                if abs(v1 - v2) > 1e-12 * max(abs(v2), 1e-300):
+                    out.append(('ifg_methods', f'Interferogram.bandlimited_rms({txt})^2 = {v1!r}, free function on (psd.r, psd.data) = {v2!r}'))
+                if abs(v1 - want_ac) > tol:
+                    out.append(('band_value' if 'flow=a, f' in txt else ('band_mixed' if ('flow' in txt or 'fhigh' in txt) else 'band_periods'),
+                                f'Interferogram.bandlimited_rms({txt})^2 = {v1!r}; the trapezoid sum of the PSD samples with '
+                                f'{a:.6g} <= r <= {c:.6g} and the per-axis steps is {want_ac!r}'))
+            try:
+                v = ifg.bandlimited_rms()
+                out.append(('band_empty', f'Interferogram.bandlimited_rms() without any band edge returned {np.asarray(v).tolist()!r} '
+                                          f'instead of raising ValueError'))
+            except ValueError:
+                pass
             # total integrated scatter: 1 - exp(-(4 pi cos(theta) sigma / lambda)^2) with sigma the RMS over the
             # spatial frequencies 0 .. 1/lambda (lambda in um, frequencies in cy/mm: 1000/lambda); lambda is chosen
-            # so that this limit falls strictly inside the band of the data
+            # so that this limit falls strictly inside the band of the data.  sigma is written out independently.
             lam = 1000 / b
-            t1 = float(ifg.total_integrated_scatter(lam, 10.0))
-            s = float(itf.bandlimited_rms(r, p, flow=0, fhigh=b))
-            t2 = 1 - math.exp(-(4 * math.pi * math.cos(math.radians(10.0)) * s / lam) ** 2)
+            sig = math.sqrt(want_0b)
+            angles = [('scalar', 10.0), ('zero', 0), ('ndarray', np.array([0.0, 10.0, 35.0, 60.0])), ('2-D ndarray', np.array([[5.0, 15.0], [25.0, 80.0]])),
+                      ('0-d ndarray', np.array(20.0)), ('default', None)]
+            for (txt, ang) in angles:
+                t1 = np.asarray(ifg.total_integrated_scatter(lam) if ang is None else ifg.total_integrated_scatter(lam, ang))
+                av = np.asarray(0.0 if ang is None else ang, dtype=float)
+                t2 = 1 - np.exp(-(4 * np.pi * np.cos(av * np.pi / 180) * sig / lam) ** 2)
+                if t1.shape != av.shape:
+                    out.append(('tis', f'total_integrated_scatter with a {txt} incident angle of shape {av.shape} returned shape {t1.shape}'))
+                elif not np.all(np.abs(t1 - t2) <= 1e-9 * np.abs(t2) + 1e-13):
+                    out.append(('tis', f'total_integrated_scatter(lambda={lam!r} um, {txt} incident angle {av.tolist()!r}) = {t1.tolist()!r}; '
+                                       f'1 - exp(-(4 pi cos(theta) sigma/lambda)^2) with sigma the RMS over 0..1/lambda (= {b!r} cy/mm) is {t2.tolist()!r}'))
     except Exception as ex:
-        return out + [('brms_raises', f'Interferogram.bandlimited_rms raised {type(ex).__name__}: {ex} under configuration {cfg}')]
-    if abs(v1 - v2) > 1e-12 * max(abs(v2), 1e-300):
-        out.append(('ifg_methods', f'Interferogram.bandlimited_rms = {v1!r}, free function on (psd.r, psd.data) = {v2!r}'))
-    if abs(t1 - t2) > 1e-9 * max(abs(t2), 1e-300):
-        out.append(('tis', f'total_integrated_scatter(lambda={lam!r} um) = {t1!r}; from the RMS over 0..1/lambda '
-                           f'(= {b!r} cy/mm) it is {t2!r}'))
+        return out + [('brms_raises', f'Interferogram.bandlimited_rms / total_integrated_scatter raised {type(ex).__name__}: {ex} '
+                                      f'under configuration {cfg}')]
     return out
 
 
@@ -452,60 +847,89 @@ def _mask(case):
     if k == 'disc':
         i = np.arange(n) - n // 2
         return (np.hypot(i[:, None], i[None, :]) <= 0.45 * n)
-    if k == 'random':
+    if k in ('random', 'int', 'float'):
         mk = np.random.default_rng(case['seed'] + 31337).random((n, n)) < 0.6
         mk[n // 2, n // 2] = True
         mk[0, 0] = True
+        return mk if k == 'random' else mk.astype(int if k == 'int' else float)     # boolean / 0-1 integer / 0.-1. float
+    if k == 'single':    # one valid sample only
+        mk = np.zeros((n, n), dtype=bool)
+        mk[n // 3, (2 * n) // 3] = True
         return mk
-    if k == 'int':       # same as 'random' but an integer 0/1 array
-        mk = np.random.default_rng(case['seed'] + 31337).random((n, n)) < 0.6
-        mk[n // 2, n // 2] = True
-        mk[0, 0] = True
-        return mk.astype(int)
+    if k == 'ones':      # a mask that removes nothing
+        return np.ones((n, n), dtype=bool)
     raise ValueError(k)
 
 
-def _render(case, rms):
-    """render_synthetic_surface (or Interferogram.render_from_psd) with the global NumPy stream seeded from the case"""
+def _user_psd_fcn(nu, amp, knee):
+    """a user-written PSD model (the `psd_fcn=` hook): a Gaussian roll-off"""
+    return amp * np.exp(-(nu / knee) ** 2) + 1e-3 * amp
+
+
+def _render(case, rms, capture=None):
+    """render_synthetic_surface (or Interferogram.render_from_psd) with the global NumPy stream seeded from the case.
+    `capture` (a list) receives a copy of every surface synthesize_surface_from_psd returns during the call: the
+    unscaled, unmasked surface of this very draw"""
     itf, _ = _impl()
-    fcn = {'abc': itf.abc_psd, 'ab': itf.ab_psd}[case['fcn']]
+    fcn = {'abc': itf.abc_psd, 'ab': itf.ab_psd, 'user': _user_psd_fcn}[case['fcn']]
     mask = _mask(case)
     st = np.random.get_state()
     np.random.seed(case['seed'] % (2 ** 32))
+    orig = getattr(itf, 'synthesize_surface_from_psd', None)
+    if capture is not None and orig is not None:
+        def recording(*a, **k):
+            res = orig(*a, **k)
+            try:
+                capture.append(np.array(res[2], copy=True))
+            except Exception:
+                pass
+            return res
+        itf.synthesize_surface_from_psd = recording
     try:
+        kw = dict(case['params'])
+        if case['fcn'] != 'abc' or not case.get('default_fcn'):
+            kw['psd_fcn'] = fcn
         if case.get('via') == 'method':
             if mask is None:
-                ifg = itf.Interferogram.render_from_psd(case['size'], case['samples'], rms=rms, psd_fcn=fcn, **case['params'])
+                ifg = itf.Interferogram.render_from_psd(case['size'], case['samples'], rms=rms, **kw)
             else:
-                ifg = itf.Interferogram.render_from_psd(case['size'], case['samples'], rms=rms, mask=mask, psd_fcn=fcn,
-                                                        **case['params'])
+                ifg = itf.Interferogram.render_from_psd(case['size'], case['samples'], rms=rms, mask=mask, **kw)
             return None, None, np.asarray(ifg.data), float(ifg.dx)
-        x, y, z = itf.render_synthetic_surface(case['size'], case['samples'], rms=rms, mask=mask, psd_fcn=fcn,
-                                               **case['params'])
+        if case.get('positional'):
+            x, y, z = itf.render_synthetic_surface(case['size'], case['samples'], rms, mask, **kw)
+        else:
+            x, y, z = itf.render_synthetic_surface(size=case['size'], samples=case['samples'], rms=rms, mask=mask, **kw)
         return np.asarray(x), np.asarray(y), np.asarray(z), None
     finally:
         np.random.set_state(st)
+        if capture is not None and orig is not None:
+            itf.synthesize_surface_from_psd = orig
 
 
-def pred_synth(case):
+def pred_synth(case, capture=None):
     itf, _ = _impl()
     rho = case['rms']
     n = case['samples']
+    mask = _mask(case)
+    mask0 = None if mask is None else mask.copy()
     try:
-        x, y, z, dxm = _render(case, rho)
+        x, y, z, dxm = _render(case, rho, capture)
     except Exception as ex:
         return [('synth_rms', f'render raised {type(ex).__name__}: {ex}')], None
     out = []
-    mask = _mask(case)
-    valid = np.isfinite(z)
+    if mask is not None and not np.array_equal(mask, mask0):
+        out.append(('synth_mask', 'the mask array of the caller was modified in place'))
+        mask = mask0
     if z.shape != (n, n):
         return [('synth_rms', f'surface has shape {z.shape}, requested {n} samples')], None
+    valid = np.isfinite(z)
     if mask is not None and not np.array_equal(valid, np.asarray(mask) != 0):
         out.append(('synth_mask', 'the valid (finite) samples of the surface are not the samples where mask != 0'))
     if mask is None and not valid.all():
         out.append(('synth_mask', 'non-finite samples without a mask'))
-    got = float(np.sqrt((z[valid] ** 2).mean())) if valid.any() else float('nan')
-    if not (abs(got - rho) <= 1e-12 * rho):
+    got = float(np.sqrt((z[valid].astype(float) ** 2).mean())) if valid.any() else float('nan')
+    tol = max(1e-12, 64 * float(np.finfo(z.dtype).eps)) if z.dtype.kind == 'f' else 1e-12
+    if not (abs(got - rho) <= tol * rho):
         out.append(('synth_rms', f'requested rms {rho!r}, rms over the {int(valid.sum())} valid samples is {got!r}'))
     return out, z
 
@@ -594,8 +1018,8 @@ def pred_history(case, verbose=False):
     return out
 
 
-PRED = {'psd': pred_psd, 'band': pred_band, 'methods': pred_methods, 'synth': lambda c: pred_synth(c)[0],
-        'history': pred_history}
+PRED = {'psd': pred_psd, 'band': pred_band, 'band1d': pred_band1d, 'methods': pred_methods,
+        'synth': lambda c: pred_synth(c)[0], 'history': pred_history}
 
 
 # ------------------------------------------------------------------------------------------------
@@ -615,12 +1039,18 @@ def _psd_cases(ctx):
     if ctx.widen:
         S += 1
     cases = []
+    k = 0
     for m, n in itertools.product(range(1, S + 1), repeat=2):
         for win in (None, 'hann', 'welch', 'ones', 'user'):
             if win == 'welch' and m < 3:
                 continue      # window_2d_welch divides by rmax = (m-1-m//2) dx = 0: NaN window, outside `sum w^2 != 0`
+            k += 1
+            if win == 'hann':      # every spelling of the name, in rotation
+                win = HANN_NAMES[k % len(HANN_NAMES)]
+            elif win == 'welch':
+                win = WELCH_NAMES[k % len(WELCH_NAMES)]
             cases.append({'kind': 'psd', 'shape': [m, n], 'dx': _logdx(rng), 'seed': _seed(rng), 'window': win,
-                          'data': 'normal'})
+                          'data': 'normal', 'window_kw': bool(k % 2)})
         if m >= 3:
             # automatic window on an all-zero small map: the only way to reach the Welch branch below 26 samples
             cases.append({'kind': 'psd', 'shape': [m, n], 'dx': _logdx(rng), 'seed': _seed(rng), 'window': None,
@@ -631,6 +1061,34 @@ def _psd_cases(ctx):
         big += [(26, 27, 'zero_corners'), (27, 26, 'normal'), (30, 26, 'zero_corners')]
     for m, n, data in big:
         cases.append({'kind': 'psd', 'shape': [m, n], 'dx': _logdx(rng), 'seed': _seed(rng), 'window': None, 'data': data})
+    return cases
+
+
+def _variant_cases(ctx):
+    """real code only: every spelling of the window names, `alpha`, signed / float32 user windows, integer and float32 height
+    maps, integer / float32 dx — on shapes of every parity"""
+    rng = ctx.rng
+    cases = []
+    shapes = [(3, 3), (3, 4), (4, 5), (5, 3), (6, 6), (7, 4), (1, 5), (5, 1), (9, 10)]
+    shapes += [(int(rng.integers(3, 30)), int(rng.integers(3, 30))) for _ in range(ctx.scale(4, 60))]
+    for (m, n) in shapes:
+        base = lambda **kw: {'kind': 'psd', 'shape': [m, n], 'dx': _logdx(rng), 'seed': _seed(rng), 'data': 'normal', **kw}   # noqa: E731
+        for name in HANN_NAMES:
+            cases.append(base(window=name))
+        if m >= 3:
+            for name in WELCH_NAMES:
+                cases.append(base(window=name))
+            for alpha in (1, 2, 6, 8, 2.5):
+                cases.append(base(window='welch_alpha', alpha=alpha))
+        cases.append(base(window='signed'))
+        for dt in ('float32', 'int64', 'int32'):
+            for win in (None, 'hann', 'user', 'user32'):
+                cases.append(base(window=win, dtype=dt))
+        cases.append(base(window='user', dxtype='float32'))
+        cases.append(base(window='hann', dxtype='float32', dtype='float32'))
+        c = base(window='user', dxtype='int')
+        c['dx'] = int(rng.integers(1, 9))
+        cases.append(c)
     return cases
 
 
@@ -675,9 +1133,9 @@ def _band_cases(ctx):
     cases = []
     def win(k, m, n):
         w = ['hann', 'user', 'ones', None][k % 4]
-        # np.hanning(2) = [0, 0]: a Hann window (named or automatic) on an axis of 2 samples has sum w^2 = 0,
-        # which is outside the property's scope (the PSD is 0/0 there)
-        return 'user' if (w in ('hann', None) and 2 in (m, n)) else w
+        # a taper on an axis of 1 or 2 samples may vanish (np.hanning(2) = [0, 0]): sum w^2 = 0 is outside the property's
+        # scope (the PSD is 0/0 there), so these shapes get a user window
+        return 'user' if (w in ('hann', None) and min(m, n) < 3) else w
     for m, n in itertools.product(range(1, S + 1), repeat=2):
         for cfg in CONFIGS:
             cases.append({'kind': 'band', 'shape': [m, n], 'dx': _logdx(rng), 'seed': _seed(rng),
@@ -687,6 +1145,21 @@ def _band_cases(ctx):
         for cfg in CONFIGS:
             cases.append({'kind': 'band', 'shape': [m, n], 'dx': _logdx(rng), 'seed': _seed(rng),
                           'window': win(int(rng.integers(4)), m, n), 'data': 'normal', 'config': cfg})
+    # r and the PSD handed over as float32 arrays; an integer PSD
+    for (m, n) in [(2, 2), (3, 4), (5, 5), (6, 3), (8, 7)] + [(int(rng.integers(2, 20)), int(rng.integers(2, 20))) for _ in range(ctx.scale(3, 30))]:
+        cases.append({'kind': 'band', 'shape': [m, n], 'dx': _logdx(rng), 'seed': _seed(rng), 'window': 'user',
+                      'data': 'normal', 'config': CONFIGS[(m + n) % 2], 'rptype': 'float32'})
+    return cases
+
+
+def _band1d_cases(ctx):
+    rng = ctx.rng
+    cases = []
+    ns = list(range(1, ctx.scale(14, 40) + 1 + (3 if ctx.widen else 0))) + [64, 65]
+    for n in ns:
+        for k, axis in enumerate(('abs', 'signed', 'onesided')):
+            cases.append({'kind': 'band1d', 'n': n, 'dx': _logdx(rng), 'seed': _seed(rng), 'axis': axis,
+                          'config': CONFIGS[(n + k) % 2], 'rptype': 'float32' if (n + k) % 5 == 0 else 'float64'})
     return cases
 
 
@@ -700,6 +1173,16 @@ def _method_cases(ctx):
         for cfg in CONFIGS:
             cases.append({'kind': 'methods', 'shape': [m, n], 'dx': float(10 ** rng.uniform(-1, 1)), 'seed': _seed(rng),
                           'data': 'normal', 'scale': 100.0, 'config': cfg})
+    # measured data: aperture -> NaN outside -> fill(0) -> psd()/bandlimited_rms()/TIS through the methods; >= 26 samples per axis,
+    # so the automatic window takes its Welch branch (corner blocks non-empty and zero)
+    big = [(26, 26), (27, 30), (32, 27), (26, 41)]
+    big += [(int(rng.integers(26, 48)), int(rng.integers(26, 48))) for _ in range(ctx.scale(2, 24))]
+    for k, (m, n) in enumerate(big):
+        cases.append({'kind': 'methods', 'shape': [m, n], 'dx': float(10 ** rng.uniform(-1, 1)), 'seed': _seed(rng),
+                      'data': 'normal', 'scale': 100.0, 'config': CONFIGS[k % 2], 'prep': 'aperture'})
+    for k, dt in enumerate(('float32', 'int32')):
+        cases.append({'kind': 'methods', 'shape': [7 + k, 6], 'dx': float(10 ** rng.uniform(-1, 1)), 'seed': _seed(rng),
+                      'data': 'normal', 'scale': 100.0, 'config': CONFIGS[k % 2], 'dtype': dt})
     return cases
 
 
@@ -735,19 +1218,29 @@ def _synth_cases(ctx):
     if ctx.thorough:
         sizes += list(range(13, 40, 3)) + [64, 65]
     for n in sizes:
-        for fcn in ('abc', 'ab'):
-            for mask in (None, 'disc', 'random', 'int'):
+        for fcn in ('abc', 'ab', 'user'):
+            for mask in (None, 'disc', 'random', 'int', 'float', 'single', 'ones'):
                 if mask == 'disc' and n < 5:
+                    continue
+                if fcn == 'user' and mask in ('int', 'float', 'ones'):
                     continue
                 if fcn == 'abc':
                     params = {'a': float(10 ** rng.uniform(-2, 3)), 'b': float(10 ** rng.uniform(-2, 1)),
                               'c': float(rng.uniform(0.5, 4.0))}
-                else:
+                elif fcn == 'ab':
                     params = {'a': float(10 ** rng.uniform(-2, 3)), 'b': float(rng.uniform(0.5, 3.5))}
+                else:
+                    params = {'amp': float(10 ** rng.uniform(-2, 3)), 'knee': float(10 ** rng.uniform(-1, 1))}
                 via = 'method' if (n + len(cases)) % 3 == 0 else 'function'
+                rms = float(10 ** rng.uniform(-3, 3))
+                if mask == 'ones' and fcn == 'ab':
+                    rms = 0.0          # a requested RMS of zero: the surface is flat
+                elif len(cases) % 11 == 0:
+                    rms = int(rng.integers(1, 50))      # an integer RMS
                 cases.append({'kind': 'synth', 'samples': n, 'size': float(10 ** rng.uniform(-1, 2)), 'fcn': fcn,
-                              'params': params, 'mask': mask, 'rms': float(10 ** rng.uniform(-3, 3)),
-                              'seed': _seed(rng), 'via': via})
+                              'params': params, 'mask': mask, 'rms': rms,
+                              'seed': _seed(rng), 'via': via, 'positional': bool(len(cases) % 2) and via == 'function',
+                              'default_fcn': fcn == 'abc' and len(cases) % 4 == 1})
     return cases
 
 
@@ -764,6 +1257,24 @@ def _parse(row):
 
 def _tag_shape(m, n):
     return f'par{m % 2}{n % 2}{"sq" if m == n else "ns"}'
+
+
+def _note_oracle(ctx, case, h, w):
+    """INFORMATIONAL: does the window prysm used equal the independent reading of make_window's present rules?  Recorded
+    in the evidence histogram; never a disagreement (window VALUES are not part of C13)."""
+    try:
+        wo = _oracle_window(case, h.astype(float))
+        if wo is None:
+            return
+        same = wo.shape == w.shape and np.allclose(wo, w, rtol=1e-12, atol=1e-12, equal_nan=True)
+        ctx.hist['window_oracle:' + ('agrees' if same else 'DIFFERS (not a violation of C13)')] += 1
+        if not same and not any('window oracle' in x for x in ctx.notes):
+            ctx.notes.append('window oracle: make_window returns other values than the harness oracle (np.hanning outer product / '
+                             '1-(r/rmax)^4 / 2 % corner rule) — informational, the property holds for every window')
+        if case['window'] is None:
+            ctx.hist[f'psd:auto->{"welch" if _auto_is_welch(h) else "hann"} (oracle)'] += 1
+    except Exception:
+        pass
 
 
 def correspondence(ctx):
@@ -787,35 +1298,36 @@ def _correspondence(ctx):
 
     # ---------------- psd: model vs implementation + predicates
     psd_cases = _psd_cases(ctx)
-    psd_real = {}
     for k, case in enumerate(psd_cases):
         m, n = case['shape']
-        w0 = _window(case, _height(case))[1]
-        degenerate = not (np.isfinite(w0).all() and (w0 ** 2).sum() > 0)     # Hann on a 2-sample axis: sum w^2 = 0
+        degenerate = not _expect_valid_window(case)      # e.g. Hann on a 2-sample axis: sum w^2 = 0
         nontrivial = m * n > 1 and case['data'] != 'zero' and not degenerate
         ctx.case('psd', case, nontrivial=nontrivial,
-                 tag=f'{_tag_shape(m, n)}/win={case["window"]}/{case["data"]}' + ('/sumw2=0' if degenerate else ''))
+                 tag=f'{_tag_shape(m, n)}/win={_window_family(case["window"])}/{case["data"]}' + ('/sumw2=0' if degenerate else ''))
+        if isinstance(case['window'], str) and _window_family(case['window']) != 'array':
+            ctx.hist[f'psd:name={case["window"]}'] += 1
+        fails = pred_psd(case)
+        for item, detail in fails:
+            ctx.pred_fail(item, case, detail)
         try:
             h, w, ux, uy, p = _real_psd(case)
         except Exception as ex:
             ctx.disagree('psd', case, f'raised {type(ex).__name__}: {ex}', 'model returns a PSD')
-            ctx.pred_fail('psd', case, f'psd raised {type(ex).__name__}: {ex}')
             continue
-        if case['window'] is None:
-            ctx.hist[f'psd:auto->{"welch" if _auto_is_welch(h) else "hann"}'] += 1
-        for item, detail in pred_psd(case):
-            ctx.pred_fail(item, case, detail)
-        # the window the implementation really used must be the oracle's window
-        try:
-            wi = np.asarray(itf.make_window(h, case['dx'], _window(case, h)[0]))
-            if not _close(wi, w, 1e-12):
-                ctx.disagree('window', case, 'make_window output', 'oracle window (hann outer product / 1-(r/rmax)^4 / user array)')
-        except Exception as ex:
-            ctx.disagree('window', case, f'raised {type(ex).__name__}: {ex}', 'oracle window')
-        if not (np.isfinite(w).all() and (w ** 2).sum() > 0):
+        _note_oracle(ctx, case, h, w)
+        if not _valid_window(w, (m, n)):
             continue
+        # the model gets the window prysm actually used: the comparison is about the PSD, not about window values
         lines.append(f'psd {m} {n} {C.f2w(case["dx"])} {_fl(h)} {_fl(w)}')
         jobs.append(('psd', (case, p)))
+
+    # ---------------- window spellings, alpha, dtypes of the map / the window / dx (real code only)
+    for case in _variant_cases(ctx):
+        m, n = case['shape']
+        ctx.case('psd_variants', case, nontrivial=m * n > 1 and _expect_valid_window(case),
+                 tag=f'win={case["window"]}/{case.get("dtype", "float64")}/dx={case.get("dxtype", "float")}')
+        for item, detail in pred_psd(case):
+            ctx.pred_fail(item, case, detail)
 
     # ---------------- peaks of on-grid cosines on the returned axes; Parseval on larger shapes (real code only)
     for case in _peak_cases(ctx):
@@ -840,6 +1352,8 @@ def _correspondence(ctx):
             h, w, ux, uy, p, r, groups, cuts = _band_setup(case)
         except Exception:
             continue
+        if not _valid_window(w, (m, n)) or p.shape != (m, n) or r.shape != (m, n):
+            continue
         a, b, c, on = _pick_edges(case, groups, cuts)
         bands = [(0.0, float(r.max())), (a, c), (b, c)]
         if on is not None:
@@ -851,7 +1365,24 @@ def _correspondence(ctx):
                 ctx.disagree('brms', {**case, 'band': [lo, hi]}, f'raised {type(ex).__name__}: {ex}', 'model returns a value')
                 continue
             lines.append(f'brmsr {m} {n} {C.f2w(lo)} {C.f2w(hi)} {_fl(r)} {_fl(p)}')
-            jobs.append(('brms', ({**case, 'band': [lo, hi]}, got, float(p.sum() / (m * n * case['dx'] ** 2)))))
+            jobs.append(('brms', ({**case, 'band': [lo, hi]}, got, float(p.astype(float).sum() / (m * n * case['dx'] ** 2)), _rtol(r, p))))
+
+    # ---------------- the 1-D form of bandlimited_rms (r, psd one-dimensional)
+    for case in _band1d_cases(ctx):
+        n = case['n']
+        ctx.case('band1d', case, nontrivial=n > 1, tag=f'{case["axis"]}/{case["config"]}/par{n % 2}/{case["rptype"]}')
+        for item, detail in pred_band1d(case):
+            ctx.pred_fail(item, case, detail)
+        r, p, step = _band1d_setup(case)
+        rf = r.astype(float)
+        for (lo, hi) in [(float(rf.min()) - 1.0, float(rf.max()) + 1.0), (0.3 * step, (0.3 + n // 3) * step)]:
+            try:
+                got = _brms(itf, case['config'], r, p, flow=lo, fhigh=hi)
+            except Exception as ex:
+                ctx.disagree('brms1d', {**case, 'band': [lo, hi]}, f'raised {type(ex).__name__}: {ex}', 'model returns a value')
+                continue
+            lines.append(f'brms1 {n} {C.f2w(lo)} {C.f2w(hi)} {_fl(r)} {_fl(p)}')
+            jobs.append(('brms1d', ({**case, 'band': [lo, hi]}, got, float(step * p.astype(float).sum()), step, _rtol(r, p))))
 
     # ---------------- Interferogram methods
     for case in _history_cases(ctx):
@@ -861,30 +1392,51 @@ def _correspondence(ctx):
             ctx.pred_fail(item, case, detail)
     for case in _method_cases(ctx):
         m, n = case['shape']
-        ctx.case('methods', case, nontrivial=True, tag=f'{_tag_shape(m, n)}/{case["config"]}')
+        ctx.case('methods', case, nontrivial=True, tag=f'{_tag_shape(m, n)}/{case["config"]}/{case.get("prep", "dense")}')
         for item, detail in pred_methods(case):
             ctx.pred_fail(item, case, detail)
+        if case.get('prep') == 'aperture':
+            try:
+                ctx.hist[f'methods:aperture:auto->{"welch" if _auto_is_welch(np.asarray(_method_object(case).data)) else "hann"} (oracle)'] += 1
+                # INFORMATIONAL (outside the quantifier "real height maps"): what psd() does with the NaN of an unfilled aperture
+                raw = itf.Interferogram(_height(case).copy(), dx=_dx(case))
+                raw.mask(_disc(m, n))
+                pn = np.asarray(raw.psd().data)
+                ctx.hist['methods:NaN heights -> psd ' + ('all NaN' if not np.isfinite(pn).any() else 'partly finite') + ' (informational)'] += 1
+            except Exception as ex:
+                ctx.hist[f'methods:NaN heights -> psd raised {type(ex).__name__} (informational)'] += 1
 
     # ---------------- synthetic surfaces: requested RMS, mask pattern, and the rescale against the model
     for case in _synth_cases(ctx):
         ctx.case('synth', case, nontrivial=True,
-                 tag=f'{case["fcn"]}/mask={case["mask"]}/{case["via"]}/par{case["samples"] % 2}')
-        fails, z = pred_synth(case)
+                 tag=f'{case["fcn"]}/mask={case["mask"]}/{case["via"]}/par{case["samples"] % 2}' + ('/rms=0' if case['rms'] == 0 else ''))
+        cap = []
+        fails, z = pred_synth(case, cap)
         for item, detail in fails:
             ctx.pred_fail(item, case, detail)
         if z is None:
             ctx.disagree('synth_model', case, 'render raised / returned a wrong shape', 'model returns the rescaled surface')
             continue
-        try:
-            _, _, z0, _ = _render(case, None)        # same random draw, no normalisation
-        except Exception as ex:
-            ctx.disagree('synth_model', case, f'rms=None raised {type(ex).__name__}: {ex}', 'unscaled surface')
+        # the unscaled surface of this very draw: what synthesize_surface_from_psd returned inside the call (recorded), masked
+        # like the result.  Only if the render no longer goes through that function: render again with rms=None from the same
+        # seed of the global stream, and compare only if two such renders agree (i.e. the stream is the one we seed).
+        valid = np.isfinite(z)
+        if len(cap) == 1 and cap[0].shape == z.shape:
+            z0 = cap[0]
+        else:
+            try:
+                z0 = _render(case, None)[2]
+                z0b = _render(case, None)[2]
+            except Exception as ex:
+                ctx.disagree('synth_model', case, f'rms=None raised {type(ex).__name__}: {ex}', 'unscaled surface')
+                continue
+            if not np.array_equal(z0, z0b, equal_nan=True):
+                ctx.hist['synth_model:skipped (random stream not reproducible)'] += 1
+                continue
+        if valid.sum() == 0 or not np.isfinite(z0[valid]).all():
+            ctx.disagree('synth_model', case, 'valid-sample pattern of the result is not finite in the unscaled surface', 'same pattern')
             continue
-        valid = np.isfinite(z0)
-        if not np.array_equal(valid, np.isfinite(z)) or valid.sum() == 0:
-            ctx.disagree('synth_model', case, 'valid-sample pattern changes with rms=', 'same pattern')
-            continue
-        lines.append(f'rescale {C.f2w(case["rms"])} {int(valid.sum())} {_fl(z0[valid])}')
+        lines.append(f'rescale {C.f2w(float(case["rms"]))} {int(valid.sum())} {_fl(z0[valid])}')
         jobs.append(('rescale', (case, z[valid])))
 
     # ---------------- run the model
@@ -913,19 +1465,28 @@ def _correspondence(ctx):
             mod = _parse(row).reshape(m, n)
             if p.shape != mod.shape:
                 ctx.disagree('psd', case, f'psd has shape {p.shape}', f'model psd has shape {mod.shape}')
-            elif not _close(p, mod, TOL):
+            elif not _close(p, mod, _rtol(p)):
                 q = np.unravel_index(np.argmax(np.abs(p - mod)), p.shape)
                 ctx.disagree('psd', case, f'psd[{q}] = {p[q]!r}; argmax {np.unravel_index(p.argmax(), p.shape)}',
                              f'model psd[{q}] = {mod[q]!r}; argmax {np.unravel_index(mod.argmax(), mod.shape)}')
+        elif kind == 'brms1d':
+            case, got, scale, step, tol = payload
+            n = case['n']
+            s0, mod = _parse(row)
+            ctx.case('brms1d', case, nontrivial=n > 1)
+            if not (abs(got - mod) <= tol * max(scale, abs(mod), 1e-300)):
+                ctx.disagree('brms1d', case, got, mod, note=f'model step {s0!r}')
+            if n >= 2 and not abs(s0 - step) <= max(tol, 1e-6 if case['rptype'] == 'float32' else 0) * step:
+                ctx.disagree('brms_steps', case, step, s0, note='1-D: step measured from r around the centre sample')
         elif kind == 'brms':
-            case, got, scale = payload
+            case, got, scale, tol = payload
             m, n = case['shape']
             s0, s1, mod = _parse(row)
             ctx.case('brms', case, nontrivial=m > 1 and n > 1)
-            if not (abs(got - mod) <= TOL * max(scale, abs(mod), 1e-300)):
+            if not (abs(got - mod) <= tol * max(scale, abs(mod), 1e-300)):
                 ctx.disagree('brms', case, got, mod, note=f'model steps {s0!r} {s1!r}')
             dx = case['dx']
-            if m >= 2 and n >= 2 and not (abs(s0 - 1 / (m * dx)) <= 1e-9 / (m * dx) and abs(s1 - 1 / (n * dx)) <= 1e-9 / (n * dx)):
+            if m >= 2 and n >= 2 and not (abs(s0 - 1 / (m * dx)) <= tol / (m * dx) and abs(s1 - 1 / (n * dx)) <= tol / (n * dx)):
                 ctx.disagree('brms_steps', case, [1 / (m * dx), 1 / (n * dx)], [s0, s1],
                              note='steps measured from r around the centre sample')
         elif kind == 'rescale':
@@ -989,15 +1550,24 @@ def _search(ctx, hints):
                              'freq': [ky, kx], 'phase': 0.0, 'amp': 1.0})
             if f:
                 return f
-    # 3. Parseval / axes for every window
+    # 3. Parseval / axes for every window (every spelling of the names, alpha, dtypes)
     for (m, n) in shapes:
-        for win in (None, 'hann', 'welch', 'user'):
-            if win == 'welch' and m < 3:
+        for win in (None, 'hann', 'welch', 'user', 'Hann', 'hanning', 'HANNING', 'Welch', 'WELCH', 'welch_alpha', 'signed'):
+            if _window_family(win) == 'welch' and m < 3 or win == 'welch_alpha' and m < 3:
                 continue
-            f = _first_fail({'kind': 'psd', 'shape': [m, n], 'dx': 0.5, 'seed': 11, 'window': win, 'data': 'normal'})
+            case = {'kind': 'psd', 'shape': [m, n], 'dx': 0.5, 'seed': 11, 'window': win, 'data': 'normal'}
+            if win == 'welch_alpha':
+                case['alpha'] = 6
+            f = _first_fail(case)
             if f:
                 return f
-    # 4. bands
+    for (m, n) in [(3, 3), (3, 4), (4, 5), (5, 4)]:
+        for extra in ({'dtype': 'float32'}, {'dtype': 'int64'}, {'dtype': 'float32', 'window': 'user32'}, {'dxtype': 'float32'},
+                      {'dxtype': 'int', 'dx': 2}, {'window_kw': False}, {'window_kw': False, 'window': None}):
+            f = _first_fail({'kind': 'psd', 'shape': [m, n], 'dx': 0.5, 'seed': 11, 'window': 'hann', 'data': 'normal', **extra})
+            if f:
+                return f
+    # 4. bands (2-D, then the 1-D form)
     for (m, n) in shapes:
         for cfg in CONFIGS:
             for seed in (3, 4):
@@ -1005,12 +1575,28 @@ def _search(ctx, hints):
                                  'data': 'normal', 'config': cfg})
                 if f:
                     return f
+    for n in range(1, 12):
+        for axis in ('abs', 'signed', 'onesided'):
+            for cfg in CONFIGS:
+                f = _first_fail({'kind': 'band1d', 'n': n, 'dx': 0.5, 'seed': 3, 'axis': axis, 'config': cfg, 'rptype': 'float64'})
+                if f:
+                    return f
+    for (m, n) in [(3, 4), (5, 5)]:
+        f = _first_fail({'kind': 'band', 'shape': [m, n], 'dx': 0.5, 'seed': 3, 'window': 'user', 'data': 'normal',
+                         'config': 'numpy2', 'rptype': 'float32'})
+        if f:
+            return f
     # 5. methods
     for (m, n) in [(3, 3), (3, 4), (4, 3), (4, 5), (5, 4)]:
         for cfg in CONFIGS:
-            f = _first_fail({'kind': 'methods', 'shape': [m, n], 'dx': 0.5, 'seed': 5, 'data': 'normal', 'config': cfg})
+            f = _first_fail({'kind': 'methods', 'shape': [m, n], 'dx': 0.5, 'seed': 5, 'data': 'normal', 'scale': 100.0, 'config': cfg})
             if f:
                 return f
+    for (m, n) in [(26, 26), (27, 30)]:
+        f = _first_fail({'kind': 'methods', 'shape': [m, n], 'dx': 0.5, 'seed': 5, 'data': 'normal', 'scale': 100.0,
+                         'config': 'numpy2', 'prep': 'aperture'})
+        if f:
+            return f
     # 5b. histories on one object: query, mutate, query
     for (q1, mu, q2) in itertools.product(H_QUERIES, H_INPLACE + H_REBIND, H_QUERIES):
         f = _first_fail({'kind': 'history', 'shape': [4, 5], 'dx': 0.5, 'seed': 7, 'data': 'normal', 'scale': 100.0,
@@ -1020,7 +1606,7 @@ def _search(ctx, hints):
     # 6. synthetic surfaces
     for n in (3, 4, 5, 8, 9):
         for fcn, params in (('abc', {'a': 1.0, 'b': 2.0, 'c': 3.0}), ('ab', {'a': 1.0, 'b': 2.0})):
-            for mask in (None, 'random'):
+            for mask in (None, 'random', 'single', 'float'):
                 for via in ('function', 'method'):
                     f = _first_fail({'kind': 'synth', 'samples': n, 'size': 10.0, 'fcn': fcn, 'params': params,
                                      'mask': mask, 'rms': 2.5, 'seed': 17, 'via': via})
@@ -1069,32 +1655,49 @@ def replay(inp):
 
 
 MANIFEST_ENTRY = {
-    'technique': 'Lean 4 proof (finite Fourier analysis / Parseval over C, trapezoid-weight algebra over R, omega over '
-                 'translator-generated index glue) + differential testing of the executable model against prysm under '
-                 'two NumPy configurations',
-    'text': ('Machine-checked, for every shape, spacing and window with sum(w^2) != 0 (no bound): Parseval for any transform '
-             'with orthogonal columns, orthogonality of the 2-D DFT kernel exp(-2 pi i(ki/m+lj/n)) for all m,n, hence '
-             'sum(PSD)*dfx*dfy = sum((h w)^2)/sum(w^2) for PSD=|F|^2/(S2 fs^2) — proved both abstractly (any permutation '
-             'of spectrum and samples) and for the executable model Model.C13.psd itself read over R with the real cos/sin; '
-             'a pre-FFT rotation changes no modulus; the displayed sample i has frequency (i-n//2)/(n dx) iff the post-FFT '
-             'rotation is fftshift (ifftshift: iff n even or n=1; negative witness n=7 by decide) — stated over the rotation '
-             'kind TRANSLATED from the current source of psd(); trapezoid = weighted sum (1/2 at the ends), linear, monotone; '
-             'band-limited mean square is monotone under widening, satisfies the inclusion-exclusion identity for closed '
-             'bands and is additive when the common edge is not a sample radius; full band: 0 <= rectangle - trapezoid <= '
-             'weight of the outermost rows/columns, and |sum((hw)^2)/sum(w^2) - brms^2_full| <= that weight for the model PSD '
-             'with the per-axis steps 1/(m dx), 1/(n dx); rms(z*rho/rms z) = rho over any non-empty valid set. TRANSLATED '
-             'from the source on every run and proved equal to the model: rotation kinds, coef = S2*fs*fs, which shape entry '
-             'feeds which axis, for each integration of bandlimited_rms the axis its step was measured along, the band-mask '
-             'comparators, the trapezoid/trapz lookup, the RMS rescale expression, method delegation. Compared on every run: '
-             'model vs prysm psd (all shapes <= 8x8 / 12x12, five window kinds, both automatic branches), bandlimited_rms '
-             '(both NumPy configurations), rescale; property predicates on the real outputs incl. spectral peak location '
-             'of on-grid cosines on the returned axes; histories on ONE Interferogram (psd / bandlimited_rms / total_integrated_scatter '
-             'interleaved with in-place and rebinding mutators): every query equals the same call on a fresh object built from '
-             'a copy of the current data; structural fact (translated): these three methods read only data, dx, wavelength and '
-             'store nothing on the object.'),
+    'technique': 'Lean 4 proof (finite Fourier analysis / Parseval over C, trapezoid-weight algebra over R, field identities and omega '
+                 'over translator-generated glue obtained by last-definition dataflow) + differential testing of the executable model '
+                 'against prysm under two NumPy configurations',
+    'text': ('PROVED for all inputs (no size bound): orthogonality of the 2-D DFT kernel for all m,n and Parseval from it; for the '
+             'EXECUTED model Model.C13.psdRot read over R with the real cos/sin: sum(PSD)*dfx*dfy = sum((h w)^2)/sum(w^2) for every '
+             'shape, dx != 0, window with sum(w^2) != 0 and every pair of rotation kinds; a rotation of the data before the transform '
+             'changes NO sample of the model PSD (pre_rotation_irrelevant_model, pointwise; cdft(x.rot) = unit phase * cdft(x)); the '
+             'displayed sample i has frequency (i-n//2)/(n dx) iff the post-FFT rotation is fftshift (ifftshift: iff n even or n=1; '
+             'witness n=7 by decide); trapezoid = weighted sum (1/2 at the ends), linear, monotone; band-limited mean square (2-D and '
+             '1-D forms) is monotone under widening, satisfies inclusion-exclusion for closed bands and is additive WHEN THE COMMON EDGE '
+             'IS NOT A SAMPLE RADIUS (with closed bands the unrestricted sentence of the property is false on an edge sample: '
+             'band_additive_general is the exact statement); these are also stated for P := the model PSD with the per-axis steps '
+             '(band_monotone_psd, band_additive_psd); full band: |sum((hw)^2)/sum(w^2) - brms^2_full| <= weight of the outermost rows/'
+             'columns for the model PSD with the steps measured from r as the code measures them, for EVERY shape m,n >= 1 (1xN / Nx1: '
+             'the code returns 0 and the bound is an equality); rms(z*rho/rms z) = rho over any non-empty valid set. '
+             'TRANSLATED from the source on every run (psd(): last-definition dataflow — rebinding, /=, reordering, renaming are '
+             'followed) and proved: the returned power as a function of |spectrum|^2, sum(w^2), dx equals P/(S2 fs^2) (field identity); '
+             'the S2 window is the window that multiplied the data and is make_window(height, dx, window); rotation kinds; which shape '
+             'entry / broadcast output feeds which axis; fttools.forward_ft_unit = fftshift(fftfreq(n, dx)) = the hand axis; hence '
+             '(psd_on_returned_axes) displayed frequency = returned axis value with BOTH sides translated; bridge psd_source_eq_model: '
+             'psdRot with the translated rotations = Model.C13.psd, the function the driver runs; Parseval over the translated glue '
+             '(psd_parseval_source); for each integration of bandlimited_rms the axis its step was measured along and the lag -1 (2-D '
+             'and 1-D), centre s//2, band-mask comparators, trapezoid/trapz lookup, sqrt of the integral of a COPY; the band table of '
+             'the argument handling (periods, frequencies, one-sided, one edge of each kind; no edge -> ValueError) and '
+             'band_table_periods_are_frequencies / band_periods_same_rms (periods (wllow, wlhigh) give brmsSq on [1/wlhigh, 1/wllow]); '
+             'the RMS rescale expression; method delegation (arguments bound by name or position), RichData.r = hypot(x, y), TIS angle '
+             'through array functions, util.rms = sqrt(mean of finite squares), mask-before-rms-before-scale; statelessness of the '
+             'three spectral methods.  Structural facts are three-valued: recognised-and-wrong fails the theorem, unrecognised '
+             'degrades the tie (TIE-DEGRADED line) and widens the sweep. '
+             'COMPARED on every run: model vs prysm psd with the window prysm actually used (all shapes <= 8x8 / 12x12), '
+             'bandlimited_rms 2-D and 1-D (both NumPy configurations), rescale; property predicates on the real outputs incl. '
+             'spectral peak location of on-grid cosines on the returned axes, window names in every capitalisation, alpha, dtypes, '
+             'band edges in every form, aperture -> fill(0) through the methods on >= 26 samples, TIS for array angles, purity of '
+             'psd/bandlimited_rms/render, histories on ONE Interferogram.'),
     'note': ('Partial in these respects: theorems are over R/C, not floats; scipy.fft.fft2 = DFT sum, fftshift/ifftshift/'
              'fftfreq index maps and np.trapezoid are trusted primitives (the index maps are compared exhaustively each run); '
-             'the window functions themselves (hann/welch values, the 2% corner heuristic) are only compared against an '
-             'independent Python oracle; NumPy 1.x is simulated by a namespace proxy; the statistical claim that a synthesised '
-             'surface has the requested PSD is not covered; total_integrated_scatter is only checked to delegate.'),
+             'window VALUES (hann/welch formulas, alpha, the 2% corner heuristic) are deliberately outside the property — only that '
+             'a usable (m,n) window comes back, that a user array is used as it is and that names are case-insensitive is checked; '
+             'the clause "additive over adjacent bands" is proved with the side condition that the common edge is not a sample radius '
+             '(the sentence should be amended, the code uses closed bands); the same band edge given both as a period and as a '
+             'frequency is unspecified (not asserted); NaN height maps are outside the quantifier; make_window / window_2d_welch / '
+             'synthesize_surface_from_psd are harness-only (no translated item); rgrid (r = hypot(fx, fy)) is a hand definition tied '
+             'to the source by the fact richDataRIsHypotOfXY; NumPy 1.x is simulated by a namespace proxy; config.precision = 32 is '
+             'not exercised (tolerances are dtype-aware); the statistical claim that a synthesised surface has the requested PSD '
+             'is not covered; translator ITEMS fall back to the hand model when the source shape is unknown (reported as TIE-DEGRADED).'),
 }
